@@ -66,10 +66,499 @@ Definition table_ok (ct : ctable) : bool :=
 Definition saved_with (glob : loader) (sctx : option loader) : loader :=
   match sctx with Some l => l | None => glob end.
 
-(* TO BE PROVED.  Hypotheses may be weakened or adjusted to what is really needed; report every change.
+(* ------------------------------------------------------------------------------------------------ *)
+(* unfolding equations: the local [fix go] loops of the model as top-level functions                   *)
 
-(1) the round trip, under every loader configuration in which the loading side resolves classes with the
-    loader that saved them: no load context (=> the recorded loader, else the global one), or the same loader.
+Fixpoint save_go (ct : ctable) (glob : loader) (ctx : option loader) (attrs : mattrs) (names : list string)
+  : option (nkvs * nkvs) :=
+  match names with
+  | [] => Some (KNil, KNil)
+  | n :: rest =>
+      match save_go ct glob ctx attrs rest with
+      | None => None
+      | Some (ts, vs) =>
+          match find_attr ct glob ctx n attrs with
+          | None => None
+          | Some (ty, nd) => Some (nk_app (nk_of_opt n ty) ts, KCons n nd vs)
+          end
+      end
+  end.
+
+Lemma save_obj_eq : forall ct glob ctx cls attrs,
+  save_obj ct glob ctx (SObj cls attrs) =
+  match save_go ct glob ctx attrs (persisted ct cls) with
+  | None => None
+  | Some (ts, vs) => Some (NDict (KCons "!!meta" (meta_node glob ctx cls ts) vs))
+  end.
+Proof.
+  intros ct glob ctx cls attrs. cbn [save_obj].
+  match goal with |- match ?f _ with _ => _ end = _ =>
+    assert (E : forall names, f names = save_go ct glob ctx attrs names) end.
+  { induction names as [|n rest IH]; [reflexivity|].
+    cbn [save_go]. rewrite <- IH. reflexivity. }
+  rewrite E. reflexivity.
+Qed.
+
+Lemma find_attr_cons : forall ct glob ctx n n' v r,
+  find_attr ct glob ctx n (ACons n' v r) =
+  if String.eqb n n' then
+    match v with
+    | MPlain x => Some (None, NVal x)
+    | MMethod own name => if own then Some (Some (NVal (VStr "m")), NVal (VStr name)) else None
+    | MObj o => match save_obj ct glob ctx o with
+                | Some nd => Some (Some (NVal (VStr "S")), nd)
+                | None => None
+                end
+    | MFut f => Some (Some (NVal (VStr "S")), save_future glob ctx f)
+    end
+  else find_attr ct glob ctx n r.
+Proof. reflexivity. Qed.
+
+Fixpoint proj_go (ct : ctable) (attrs : mattrs) (names : list string) : option mattrs :=
+  match names with
+  | [] => Some ANil
+  | n :: rest =>
+      match project_attr ct n attrs, proj_go ct attrs rest with
+      | Some v, Some a => Some (ACons n v a)
+      | _, _ => None
+      end
+  end.
+
+Lemma project_eq : forall ct cls attrs,
+  project ct (SObj cls attrs) =
+  match proj_go ct attrs (persisted ct cls) with
+  | Some a => Some (SObj cls a)
+  | None => None
+  end.
+Proof.
+  intros ct cls attrs. cbn [project].
+  match goal with |- match ?f _ with _ => _ end = _ =>
+    assert (E : forall names, f names = proj_go ct attrs names) end.
+  { induction names as [|n rest IH]; [reflexivity|].
+    cbn [proj_go]. rewrite <- IH. reflexivity. }
+  rewrite E. reflexivity.
+Qed.
+
+Lemma project_attr_cons : forall ct n n' v r,
+  project_attr ct n (ACons n' v r) =
+  if String.eqb n n' then
+    match v with
+    | MPlain x => Some (MPlain x)
+    | MMethod own name => if own then Some (MMethod true name) else None
+    | MObj o => match project ct o with Some p => Some (MObj p) | None => None end
+    | MFut f => Some (MFut f)
+    end
+  else project_attr ct n r.
+Proof. reflexivity. Qed.
+
+Lemma depth_SObj : forall cls attrs, depth (SObj cls attrs) = S (depth_attrs attrs).
+Proof. reflexivity. Qed.
+
+Lemma depth_attrs_cons : forall n v r,
+  depth_attrs (ACons n v r) =
+  Nat.max (match v with MObj o => depth o | MFut _ => 1 | _ => 0 end) (depth_attrs r).
+Proof. reflexivity. Qed.
+
+Lemma classes_known_SObj : forall ct cls attrs,
+  classes_known ct (SObj cls attrs) = alist_mem cls ct && classes_known_attrs ct attrs.
+Proof. reflexivity. Qed.
+
+Lemma classes_known_attrs_cons : forall ct n v r,
+  classes_known_attrs ct (ACons n v r) =
+  match v with MObj o => classes_known ct o | _ => true end && classes_known_attrs ct r.
+Proof. reflexivity. Qed.
+
+(* one member of the load loop *)
+Definition load_member (ct : ctable) (glob : loader) (fuel' : nat) (ldr : loader) (types : nkvs)
+  (m : string) (nd : node) : lerr + mval :=
+  match node_str (nk_get m types), nd with
+  | Some "m", NVal (VStr name) => inr (MMethod true name)
+  | Some "S", _ => load_obj ct glob fuel' (Some ldr) nd
+  | _, NVal x => inr (MPlain x)
+  | _, _ => inl LOther
+  end.
+
+Fixpoint load_go (ct : ctable) (glob : loader) (fuel' : nat) (ldr : loader) (kvs types : nkvs)
+  (names : list string) : lerr + mattrs :=
+  match names with
+  | [] => inr ANil
+  | m :: rest =>
+      match nk_get m kvs with
+      | None => inl LOther
+      | Some nd =>
+          match load_member ct glob fuel' ldr types m nd, load_go ct glob fuel' ldr kvs types rest with
+          | inl e, _ => inl e
+          | _, inl e => inl e
+          | inr x, inr a => inr (ACons m x a)
+          end
+      end
+  end.
+
+Lemma load_obj_eq : forall ct glob fuel' ctx kvs meta ldr ident cls,
+  nk_get "!!meta" kvs = Some (NDict meta) ->
+  ensure_loader ct glob ctx meta = inr ldr ->
+  node_str (nk_get "class_name" meta) = Some ident ->
+  load_object (known_names ct) ldr ident = Some cls ->
+  load_obj ct glob (S fuel') ctx (NDict kvs) =
+  if String.eqb cls "SavableFuture" then
+    match load_future kvs with inl e => inl e | inr f => inr (MFut f) end
+  else
+    match load_go ct glob fuel' ldr kvs
+            (match nk_get "types" meta with Some (NDict t) => t | _ => KNil end) (persisted ct cls) with
+    | inl e => inl e
+    | inr a => inr (MObj (SObj cls a))
+    end.
+Proof.
+  intros ct glob fuel' ctx kvs meta ldr ident cls Hmeta Hens Hcn Hlo.
+  cbn [load_obj]. rewrite Hmeta, Hens, Hcn, Hlo.
+  destruct (String.eqb cls "SavableFuture"); [reflexivity|].
+  match goal with |- match ?f _ with _ => _ end = _ =>
+    assert (E : forall names, f names =
+      load_go ct glob fuel' ldr kvs
+        (match nk_get "types" meta with Some (NDict t) => t | _ => KNil end) names) end.
+  { induction names as [|m rest IH]; [reflexivity|].
+    cbn [load_go]. rewrite <- IH. reflexivity. }
+  rewrite E. reflexivity.
+Qed.
+
+Lemma load_obj_badclass : forall ct glob fuel' ctx kvs meta ldr ident,
+  nk_get "!!meta" kvs = Some (NDict meta) ->
+  ensure_loader ct glob ctx meta = inr ldr ->
+  node_str (nk_get "class_name" meta) = Some ident ->
+  load_object (known_names ct) ldr ident = None ->
+  load_obj ct glob (S fuel') ctx (NDict kvs) = inl LValueError.
+Proof.
+  intros ct glob fuel' ctx kvs meta ldr ident Hmeta Hens Hcn Hlo.
+  cbn [load_obj]. rewrite Hmeta, Hens, Hcn, Hlo. reflexivity.
+Qed.
+
+Lemma load_member_m : forall ct glob fuel' ldr types m name,
+  nk_get m types = Some (NVal (VStr "m")) ->
+  load_member ct glob fuel' ldr types m (NVal (VStr name)) = inr (MMethod true name).
+Proof. intros ct glob fuel' ldr types m name H. unfold load_member. rewrite H. reflexivity. Qed.
+
+Lemma load_member_S : forall ct glob fuel' ldr types m nd,
+  nk_get m types = Some (NVal (VStr "S")) ->
+  load_member ct glob fuel' ldr types m nd = load_obj ct glob fuel' (Some ldr) nd.
+Proof. intros ct glob fuel' ldr types m nd H. unfold load_member. rewrite H. reflexivity. Qed.
+
+Lemma load_member_plain : forall ct glob fuel' ldr types m x,
+  nk_get m types = None ->
+  load_member ct glob fuel' ldr types m (NVal x) = inr (MPlain x).
+Proof. intros ct glob fuel' ldr types m x H. unfold load_member. rewrite H. reflexivity. Qed.
+
+(* ------------------------------------------------------------------------------------------------ *)
+(* the meta entry and the loaders                                                                     *)
+
+Definition meta_kvs (glob : loader) (ctx : option loader) (cls : string) (types : nkvs) : nkvs :=
+  nk_app
+    (match ctx with
+     | Some l => KCons "user" (NDict (KCons "object_loader"
+                    (NVal (VStr (identify glob (loader_class_name l)))) KNil)) KNil
+     | None => KNil
+     end)
+    (nk_app (KCons "class_name" (NVal (VStr (identify (saved_with glob ctx) cls))) KNil)
+            (match types with KNil => KNil | _ => KCons "types" (NDict types) KNil end)).
+
+Lemma meta_node_eq : forall glob ctx cls types,
+  meta_node glob ctx cls types = NDict (meta_kvs glob ctx cls types).
+Proof. reflexivity. Qed.
+
+Lemma ensure_loader_meta : forall ct glob sctx lctx cls ts,
+  (lctx = None \/ lctx = Some (saved_with glob sctx)) ->
+  ensure_loader ct glob lctx (meta_kvs glob sctx cls ts) = inr (saved_with glob sctx).
+Proof.
+  intros ct glob sctx lctx cls ts [-> | ->]; [|reflexivity].
+  destruct sctx as [l|].
+  - destruct glob, l; reflexivity.
+  - destruct ts; reflexivity.
+Qed.
+
+Lemma class_name_meta : forall glob sctx cls ts,
+  node_str (nk_get "class_name" (meta_kvs glob sctx cls ts)) = Some (identify (saved_with glob sctx) cls).
+Proof. intros glob sctx cls ts. destruct sctx; reflexivity. Qed.
+
+Lemma types_meta : forall glob sctx cls ts,
+  match nk_get "types" (meta_kvs glob sctx cls ts) with Some (NDict t) => t | _ => KNil end = ts.
+Proof. intros glob sctx cls ts. destruct sctx, ts; reflexivity. Qed.
+
+Lemma load_object_identify : forall known l c,
+  existsb (String.eqb c) known = true -> load_object known l (identify l c) = Some c.
+Proof.
+  intros known l c H. destruct l; cbn; rewrite H; reflexivity.
+Qed.
+
+Lemma load_object_unknown : forall known l c,
+  existsb (String.eqb c) known = false -> load_object known l (identify l c) = None.
+Proof.
+  intros known l c H. destruct l; cbn; rewrite H; reflexivity.
+Qed.
+
+Lemma load_object_other : forall known l l' c,
+  l <> l' -> load_object known l (identify l' c) = None.
+Proof.
+  intros known l l' c H. destruct l, l'; try congruence; reflexivity.
+Qed.
+
+Lemma existsb_map_fst : forall (c : string) (ct : ctable),
+  existsb (String.eqb c) (map fst ct) = alist_mem c ct.
+Proof.
+  intros c ct. induction ct as [|[k v] r IH]; [reflexivity|].
+  unfold alist_mem in *. cbn. destruct (String.eqb c k); [reflexivity|exact IH].
+Qed.
+
+Lemma known_of_mem : forall ct cls,
+  alist_mem cls ct = true -> existsb (String.eqb cls) (known_names ct) = true.
+Proof.
+  intros ct cls H. unfold known_names. cbn [existsb]. rewrite existsb_map_fst, H.
+  rewrite !orb_true_r. reflexivity.
+Qed.
+
+Lemma unknown_of_not_mem : forall ct cls,
+  alist_mem cls ct = false -> cls <> "SavableFuture" ->
+  cls <> loader_class_name LDefault -> cls <> loader_class_name LCustom ->
+  existsb (String.eqb cls) (known_names ct) = false.
+Proof.
+  intros ct cls H H1 H2 H3. unfold known_names. cbn [existsb]. rewrite existsb_map_fst, H.
+  apply String.eqb_neq in H1, H2, H3. rewrite H1, H2, H3. reflexivity.
+Qed.
+
+(* ------------------------------------------------------------------------------------------------ *)
+(* consequences of table_ok                                                                           *)
+
+Lemma alist_get_in : forall (A : Type) (k : string) (l : list (string * A)) (v : A),
+  alist_get k l = Some v -> In (k, v) l.
+Proof.
+  intros A k l v. induction l as [|[k' v'] r IH]; cbn; intros H; [discriminate|].
+  destruct (String.eqb k k') eqn:E.
+  - apply String.eqb_eq in E. subst k'. inversion H. left. reflexivity.
+  - right. apply IH. exact H.
+Qed.
+
+Lemma table_ok_entry : forall ct c v,
+  table_ok ct = true -> alist_get c ct = Some v ->
+  String.eqb c "SavableFuture" = false /\
+  forallb (fun m => negb (String.eqb m "!!meta")) (snd v) = true.
+Proof.
+  intros ct c v Hok Hget. apply alist_get_in in Hget.
+  unfold table_ok in Hok. rewrite forallb_forall in Hok. specialize (Hok _ Hget). cbn [fst snd] in Hok.
+  apply andb_true_iff in Hok. destruct Hok as [Hok Hm].
+  apply andb_true_iff in Hok. destruct Hok as [Hok _].
+  apply andb_true_iff in Hok. destruct Hok as [Hok _].
+  split; [|exact Hm]. destruct (String.eqb c "SavableFuture"); [discriminate|reflexivity].
+Qed.
+
+Lemma table_ok_class : forall ct cls,
+  table_ok ct = true -> alist_mem cls ct = true -> String.eqb cls "SavableFuture" = false.
+Proof.
+  intros ct cls Hok Hmem. unfold alist_mem in Hmem.
+  destruct (alist_get cls ct) as [v|] eqn:E; [|discriminate].
+  exact (proj1 (table_ok_entry ct cls v Hok E)).
+Qed.
+
+Lemma members_not_meta : forall ct, table_ok ct = true ->
+  forall fuel c m, In m (members_of fuel ct c) -> m <> "!!meta".
+Proof.
+  intros ct Hok. induction fuel as [|f IH]; intros c m Hin; cbn [members_of] in Hin; [contradiction|].
+  destruct (alist_get c ct) as [[parent own]|] eqn:E; [|contradiction].
+  apply in_app_or in Hin. destruct Hin as [Hin|Hin].
+  - destruct parent as [p|]; [exact (IH p m Hin)|contradiction].
+  - destruct (table_ok_entry ct c _ Hok E) as [_ Hm]. cbn [snd] in Hm.
+    rewrite forallb_forall in Hm. specialize (Hm m Hin).
+    apply String.eqb_neq. destruct (String.eqb m "!!meta"); [discriminate|reflexivity].
+Qed.
+
+Lemma in_dedup : forall l m, In m (dedup l) -> In m l.
+Proof.
+  induction l as [|x r IH]; intros m H; cbn [dedup] in H; [contradiction|].
+  destruct (existsb (String.eqb x) r).
+  - right. apply IH. exact H.
+  - destruct H as [H|H]; [left; exact H|right; apply IH; exact H].
+Qed.
+
+Lemma persisted_not_meta : forall ct cls m,
+  table_ok ct = true -> In m (persisted ct cls) -> m <> "!!meta".
+Proof.
+  intros ct cls m Hok Hin. unfold persisted in Hin. apply in_dedup in Hin.
+  exact (members_not_meta ct Hok _ _ _ Hin).
+Qed.
+
+(* ------------------------------------------------------------------------------------------------ *)
+(* the save loop: what is stored under a member name                                                  *)
+
+Lemma nk_get_types_other : forall m n ty ts,
+  String.eqb m n = false -> nk_get m (nk_app (nk_of_opt n ty) ts) = nk_get m ts.
+Proof.
+  intros m n ty ts H. destruct ty as [t|]; cbn; [rewrite H|]; reflexivity.
+Qed.
+
+Lemma save_go_ts_none : forall ct glob ctx attrs m names ts vs,
+  save_go ct glob ctx attrs names = Some (ts, vs) -> ~ In m names -> nk_get m ts = None.
+Proof.
+  intros ct glob ctx attrs m. induction names as [|n rest IH]; intros ts vs H Hnin; cbn [save_go] in H.
+  - inversion H. reflexivity.
+  - destruct (save_go ct glob ctx attrs rest) as [[ts' vs']|] eqn:E; [|discriminate].
+    destruct (find_attr ct glob ctx n attrs) as [[ty nd]|] eqn:F; [|discriminate].
+    inversion H; subst ts vs. clear H.
+    assert (Hmn : String.eqb m n = false).
+    { apply String.eqb_neq. intros ->. apply Hnin. left. reflexivity. }
+    rewrite nk_get_types_other by exact Hmn.
+    apply (IH ts' vs' eq_refl). intros Hin. apply Hnin. right. exact Hin.
+Qed.
+
+Lemma save_go_get : forall ct glob ctx attrs m names ts vs,
+  save_go ct glob ctx attrs names = Some (ts, vs) -> In m names ->
+  exists ty nd, find_attr ct glob ctx m attrs = Some (ty, nd) /\ nk_get m vs = Some nd /\ nk_get m ts = ty.
+Proof.
+  intros ct glob ctx attrs m. induction names as [|n rest IH]; intros ts vs H Hin; cbn [save_go] in H.
+  - contradiction.
+  - destruct (save_go ct glob ctx attrs rest) as [[ts' vs']|] eqn:E; [|discriminate].
+    destruct (find_attr ct glob ctx n attrs) as [[ty nd]|] eqn:F; [|discriminate].
+    inversion H; subst ts vs. clear H.
+    destruct (String.eqb m n) eqn:Emn.
+    + apply String.eqb_eq in Emn. subst n.
+      exists ty, nd. split; [exact F|]. split.
+      * cbn [nk_get]. rewrite String.eqb_refl. reflexivity.
+      * destruct ty as [t|].
+        -- cbn. rewrite String.eqb_refl. reflexivity.
+        -- cbn [nk_of_opt nk_app].
+           destruct (in_dec string_dec m rest) as [Hr|Hr].
+           ++ destruct (IH ts' vs' eq_refl Hr) as [ty' [nd' [F' [_ Hts]]]].
+              rewrite F in F'. inversion F' as [[Hty Hnd]]. rewrite Hty. exact Hts.
+           ++ exact (save_go_ts_none ct glob ctx attrs m rest ts' vs' E Hr).
+    + assert (Hr : In m rest).
+      { destruct Hin as [Hin|Hin]; [|exact Hin]. subst n. rewrite String.eqb_refl in Emn. discriminate. }
+      destruct (IH ts' vs' eq_refl Hr) as [ty' [nd' [F' [Hvs Hts]]]].
+      exists ty', nd'. split; [exact F'|]. split.
+      * cbn [nk_get]. rewrite Emn. exact Hvs.
+      * rewrite nk_get_types_other by exact Emn. exact Hts.
+Qed.
+
+(* ------------------------------------------------------------------------------------------------ *)
+(* (6) futures                                                                                        *)
+
+Theorem future_roundtrip : forall ct glob sctx lctx f fuel,
+  (lctx = None \/ lctx = Some (saved_with glob sctx)) -> 0 < fuel ->
+  load_obj ct glob fuel lctx (save_future glob sctx f) = inr (MFut f).
+Proof.
+  intros ct glob sctx lctx f fuel Hl Hfuel.
+  destruct fuel as [|fuel']; [lia|].
+  unfold save_future. rewrite meta_node_eq.
+  rewrite (load_obj_eq ct glob fuel' lctx _ (meta_kvs glob sctx "SavableFuture" KNil)
+             (saved_with glob sctx) (identify (saved_with glob sctx) "SavableFuture") "SavableFuture").
+  - destruct f; reflexivity.
+  - reflexivity.
+  - apply ensure_loader_meta. exact Hl.
+  - apply class_name_meta.
+  - apply load_object_identify. reflexivity.
+Qed.
+
+(* ------------------------------------------------------------------------------------------------ *)
+(* (1) the round trip                                                                                 *)
+
+Section Roundtrip.
+  Variable ct : ctable.
+  Variable glob : loader.
+  Variable sctx : option loader.
+  Variable fuel' : nat.
+  Hypothesis IHfuel : forall o n p,
+    classes_known ct o = true ->
+    save_obj ct glob sctx o = Some n ->
+    project ct o = Some p ->
+    depth o < fuel' ->
+    load_obj ct glob fuel' (Some (saved_with glob sctx)) n = inr (MObj p).
+
+  Lemma member_roundtrip : forall ts m attrs nd v,
+    classes_known_attrs ct attrs = true ->
+    depth_attrs attrs < fuel' ->
+    find_attr ct glob sctx m attrs = Some (nk_get m ts, nd) ->
+    project_attr ct m attrs = Some v ->
+    load_member ct glob fuel' (saved_with glob sctx) ts m nd = inr v.
+  Proof.
+    intros ts m. induction attrs as [|n' mv r IH]; intros nd v Hck Hd Hf Hp.
+    - discriminate.
+    - rewrite find_attr_cons in Hf. rewrite project_attr_cons in Hp.
+      rewrite classes_known_attrs_cons in Hck. apply andb_true_iff in Hck. destruct Hck as [Hck1 Hck2].
+      rewrite depth_attrs_cons in Hd.
+      destruct (String.eqb m n').
+      + destruct mv as [x|own name|o|f].
+        * injection Hf as Hty Hnd. injection Hp as Hv. subst nd v.
+          apply load_member_plain. symmetry. exact Hty.
+        * destruct own; [|discriminate].
+          injection Hf as Hty Hnd. injection Hp as Hv. subst nd v.
+          apply load_member_m. symmetry. exact Hty.
+        * destruct (save_obj ct glob sctx o) as [nd'|] eqn:Es; [|discriminate].
+          destruct (project ct o) as [p'|] eqn:Ep; [|discriminate].
+          injection Hf as Hty Hnd. injection Hp as Hv. subst nd v.
+          rewrite load_member_S by (symmetry; exact Hty).
+          apply (IHfuel o); [exact Hck1|exact Es|exact Ep|lia].
+        * injection Hf as Hty Hnd. injection Hp as Hv. subst nd v.
+          rewrite load_member_S by (symmetry; exact Hty).
+          apply future_roundtrip; [right; reflexivity|lia].
+      + apply (IH nd v Hck2); [lia|exact Hf|exact Hp].
+  Qed.
+
+  Lemma load_go_roundtrip : forall attrs names ts vs M,
+    save_go ct glob sctx attrs names = Some (ts, vs) ->
+    (forall m, In m names -> m <> "!!meta") ->
+    classes_known_attrs ct attrs = true ->
+    depth_attrs attrs < fuel' ->
+    forall names' a, incl names' names ->
+    proj_go ct attrs names' = Some a ->
+    load_go ct glob fuel' (saved_with glob sctx) (KCons "!!meta" M vs) ts names' = inr a.
+  Proof.
+    intros attrs names ts vs M Hs Hnm Hck Hd.
+    induction names' as [|m rest IH]; intros a Hincl Hp; cbn [proj_go] in Hp.
+    - inversion Hp. reflexivity.
+    - destruct (project_attr ct m attrs) as [v|] eqn:Ev; [|discriminate].
+      destruct (proj_go ct attrs rest) as [a'|] eqn:Ea; [|discriminate].
+      inversion Hp; subst a. clear Hp.
+      assert (Hin : In m names) by (apply Hincl; left; reflexivity).
+      assert (Hincl' : incl rest names) by (intros x Hx; apply Hincl; right; exact Hx).
+      destruct (save_go_get ct glob sctx attrs m names ts vs Hs Hin) as [ty [nd [Hf [Hvs Hts]]]].
+      cbn [load_go nk_get].
+      assert (Hmm : String.eqb m "!!meta" = false) by (apply String.eqb_neq; apply Hnm; exact Hin).
+      rewrite Hmm, Hvs. rewrite <- Hts in Hf.
+      rewrite (member_roundtrip ts m attrs nd v Hck Hd Hf Ev).
+      rewrite (IH a' Hincl' eq_refl). reflexivity.
+  Qed.
+End Roundtrip.
+
+Lemma roundtrip_fuel : forall ct glob sctx, table_ok ct = true ->
+  forall fuel lctx o n p,
+  classes_known ct o = true ->
+  save_obj ct glob sctx o = Some n ->
+  project ct o = Some p ->
+  (lctx = None \/ lctx = Some (saved_with glob sctx)) ->
+  depth o < fuel ->
+  load_obj ct glob fuel lctx n = inr (MObj p).
+Proof.
+  intros ct glob sctx Hok. induction fuel as [|fuel' IHf]; intros lctx o n p Hck Hs Hp Hl Hd; [lia|].
+  destruct o as [cls attrs].
+  rewrite save_obj_eq in Hs.
+  destruct (save_go ct glob sctx attrs (persisted ct cls)) as [[ts vs]|] eqn:Eg; [|discriminate].
+  inversion Hs; subst n. clear Hs.
+  rewrite project_eq in Hp.
+  destruct (proj_go ct attrs (persisted ct cls)) as [a|] eqn:Ea; [|discriminate].
+  inversion Hp; subst p. clear Hp.
+  rewrite classes_known_SObj in Hck. apply andb_true_iff in Hck. destruct Hck as [Hmem Hck].
+  rewrite depth_SObj in Hd.
+  rewrite meta_node_eq.
+  rewrite (load_obj_eq ct glob fuel' lctx _ (meta_kvs glob sctx cls ts)
+             (saved_with glob sctx) (identify (saved_with glob sctx) cls) cls).
+  - rewrite (table_ok_class ct cls Hok Hmem). rewrite types_meta.
+    rewrite (load_go_roundtrip ct glob sctx fuel'
+               (fun o n p Hck Hs Hp Hd => IHf (Some (saved_with glob sctx)) o n p Hck Hs Hp (or_intror eq_refl) Hd)
+               attrs (persisted ct cls) ts vs _ Eg
+               (fun m Hin => persisted_not_meta ct cls m Hok Hin) Hck ltac:(lia)
+               (persisted ct cls) a (incl_refl _) Ea).
+    reflexivity.
+  - reflexivity.
+  - apply ensure_loader_meta. exact Hl.
+  - apply class_name_meta.
+  - apply load_object_identify. apply known_of_mem. exact Hmem.
+Qed.
+
 Theorem roundtrip : forall ct glob sctx lctx o n p fuel,
   table_ok ct = true -> classes_known ct o = true ->
   save_obj ct glob sctx o = Some n ->
@@ -77,34 +566,127 @@ Theorem roundtrip : forall ct glob sctx lctx o n p fuel,
   (lctx = None \/ lctx = Some (saved_with glob sctx)) ->
   depth o < fuel ->
   load_obj ct glob fuel lctx n = inr (MObj p).
+Proof.
+  intros ct glob sctx lctx o n p fuel Hok Hck Hs Hp Hl Hd.
+  exact (roundtrip_fuel ct glob sctx Hok fuel lctx o n p Hck Hs Hp Hl Hd).
+Qed.
 
-(2) saving succeeds exactly on savable objects:
+(* ------------------------------------------------------------------------------------------------ *)
+(* (2) saving succeeds exactly on savable objects                                                     *)
+
+Scheme mval_mut := Induction for mval Sort Prop
+  with sobj_mut := Induction for sobj Sort Prop
+  with mattrs_mut := Induction for mattrs Sort Prop.
+
+Definition is_some {A : Type} (x : option A) : bool := match x with Some _ => true | None => false end.
+
+Lemma save_project_defined : forall ct glob o ctx,
+  is_some (save_obj ct glob ctx o) = is_some (project ct o).
+Proof.
+  intros ct glob.
+  apply (sobj_mut
+    (fun v => match v with
+              | MObj o => forall ctx, is_some (save_obj ct glob ctx o) = is_some (project ct o)
+              | _ => True
+              end)
+    (fun o => forall ctx, is_some (save_obj ct glob ctx o) = is_some (project ct o))
+    (fun a => forall ctx n, is_some (find_attr ct glob ctx n a) = is_some (project_attr ct n a))).
+  - intros v. exact I.
+  - intros own name. exact I.
+  - intros o H. exact H.
+  - intros f. exact I.
+  - intros cls attrs IHa ctx. rewrite save_obj_eq, project_eq.
+    assert (E : forall names,
+      is_some (save_go ct glob ctx attrs names) = is_some (proj_go ct attrs names)).
+    { induction names as [|n rest IH]; [reflexivity|]. cbn [save_go proj_go].
+      specialize (IHa ctx n).
+      destruct (save_go ct glob ctx attrs rest) as [[ts vs]|];
+        destruct (proj_go ct attrs rest) as [a|]; cbn in IH; try discriminate;
+        destruct (find_attr ct glob ctx n attrs) as [[ty nd]|];
+        destruct (project_attr ct n attrs) as [v|]; cbn in IHa; try discriminate; reflexivity. }
+    specialize (E (persisted ct cls)).
+    destruct (save_go ct glob ctx attrs (persisted ct cls)) as [[ts vs]|];
+      destruct (proj_go ct attrs (persisted ct cls)) as [a|]; cbn in E; try discriminate; reflexivity.
+  - intros ctx n. reflexivity.
+  - intros n' v IHv r IHr ctx n. rewrite find_attr_cons, project_attr_cons.
+    destruct (String.eqb n n'); [|apply IHr].
+    destruct v as [x|own name|o|f].
+    + reflexivity.
+    + destruct own; reflexivity.
+    + specialize (IHv ctx).
+      destruct (save_obj ct glob ctx o); destruct (project ct o); cbn in IHv; try discriminate; reflexivity.
+    + reflexivity.
+Qed.
+
 Theorem save_defined_iff : forall ct glob sctx o,
   (exists n, save_obj ct glob sctx o = Some n) <-> (exists p, project ct o = Some p).
+Proof.
+  intros ct glob sctx o. pose proof (save_project_defined ct glob o sctx) as H.
+  split; intros [x Hx]; rewrite Hx in H; cbn in H.
+  - destruct (project ct o) as [p|]; [exists p; reflexivity|discriminate].
+  - destruct (save_obj ct glob sctx o) as [n|]; [exists n; reflexivity|discriminate].
+Qed.
 
-(3) a loader with another identifier scheme never yields an object: ValueError.
+(* ------------------------------------------------------------------------------------------------ *)
+(* (3), (4) wrong loader / unknown class: ValueError                                                  *)
+
 Theorem load_other_loader : forall ct glob sctx l o n fuel,
   save_obj ct glob sctx o = Some n -> l <> saved_with glob sctx -> 0 < fuel ->
   load_obj ct glob fuel (Some l) n = inl LValueError.
+Proof.
+  intros ct glob sctx l o n fuel Hs Hl Hfuel.
+  destruct fuel as [|fuel']; [lia|].
+  destruct o as [cls attrs]. rewrite save_obj_eq in Hs.
+  destruct (save_go ct glob sctx attrs (persisted ct cls)) as [[ts vs]|]; [|discriminate].
+  inversion Hs; subst n. rewrite meta_node_eq.
+  apply (load_obj_badclass ct glob fuel' (Some l) _ (meta_kvs glob sctx cls ts) l
+           (identify (saved_with glob sctx) cls)).
+  - reflexivity.
+  - reflexivity.
+  - apply class_name_meta.
+  - apply load_object_other. exact Hl.
+Qed.
 
-(4) an unknown class is a ValueError, never a wrong object (ct' = the table at load time):
 Theorem load_unknown_class : forall ct ct' glob sctx lctx cls attrs n fuel,
   save_obj ct glob sctx (SObj cls attrs) = Some n ->
   alist_mem cls ct' = false -> cls <> "SavableFuture" ->
   cls <> loader_class_name LDefault -> cls <> loader_class_name LCustom ->
   (lctx = None \/ lctx = Some (saved_with glob sctx)) -> 0 < fuel ->
   load_obj ct' glob fuel lctx n = inl LValueError.
+Proof.
+  intros ct ct' glob sctx lctx cls attrs n fuel Hs Hmem H1 H2 H3 Hl Hfuel.
+  destruct fuel as [|fuel']; [lia|].
+  rewrite save_obj_eq in Hs.
+  destruct (save_go ct glob sctx attrs (persisted ct cls)) as [[ts vs]|]; [|discriminate].
+  inversion Hs; subst n. rewrite meta_node_eq.
+  apply (load_obj_badclass ct' glob fuel' lctx _ (meta_kvs glob sctx cls ts) (saved_with glob sctx)
+           (identify (saved_with glob sctx) cls)).
+  - reflexivity.
+  - apply ensure_loader_meta. exact Hl.
+  - apply class_name_meta.
+  - apply load_object_unknown. exact (unknown_of_not_mem ct' cls Hmem H1 H2 H3).
+Qed.
 
-(5) loader precedence (context, then the one recorded in the saved state, then the global default):
+(* ------------------------------------------------------------------------------------------------ *)
+(* (5) loader precedence                                                                              *)
+
 Theorem ensure_loader_context : forall ct glob l meta, ensure_loader ct glob (Some l) meta = inr l.
+Proof. reflexivity. Qed.
+
 Theorem ensure_loader_recorded : forall ct glob l,
   ensure_loader ct glob None
     (KCons "user" (NDict (KCons "object_loader" (NVal (VStr (identify glob (loader_class_name l)))) KNil)) KNil) = inr l.
+Proof. intros ct glob l. destruct glob, l; reflexivity. Qed.
+
 Theorem ensure_loader_global : forall ct glob meta,
   nk_get "user" meta = None -> ensure_loader ct glob None meta = inr glob.
+Proof. intros ct glob meta H. unfold ensure_loader. rewrite H. reflexivity. Qed.
 
-(6) futures come back in the state they were saved in, whatever the loaders (compatible as in (1)):
-Theorem future_roundtrip : forall ct glob sctx lctx f fuel,
-  (lctx = None \/ lctx = Some (saved_with glob sctx)) -> 0 < fuel ->
-  load_obj ct glob fuel lctx (save_future glob sctx f) = inr (MFut f).
-*)
+Print Assumptions roundtrip.
+Print Assumptions save_defined_iff.
+Print Assumptions load_other_loader.
+Print Assumptions load_unknown_class.
+Print Assumptions ensure_loader_context.
+Print Assumptions ensure_loader_recorded.
+Print Assumptions ensure_loader_global.
+Print Assumptions future_roundtrip.
